@@ -1261,6 +1261,266 @@ theorem sabs_default {N : Nat} {junk : List Byte} (hj : junk.length = N + 1) : S
 theorem sabs_clear {N : Nat} {s : SStr} {es : List Byte} (h : SAbs N s es) : SAbs N (sClear s) [] :=
   ⟨h.len, rfl, by simp, by simp [sClear]⟩
 
+/-! ### split<VSize,SSize> (std_portable.h) -/
+
+/-- the predicate of the two inner loops of `split`: `*ptr == delim` (`b = true`) / `*ptr != delim` -/
+abbrev isDelim (delim : Byte) (b : Bool) : Byte → Bool := fun c => decide (decide (c = delim) = b)
+
+/-- the bytes `[ptr, endp)` of `d` -/
+def seg (d : List Byte) (ptr endp : Nat) : List Byte := (d.take endp).drop ptr
+
+theorem seg_self (d : List Byte) (endp : Nat) (h : endp ≤ d.length) : seg d endp endp = [] := by
+  simp [seg]
+
+theorem seg_cons {d : List Byte} {ptr endp : Nat} (h1 : ptr < endp) (h2 : endp ≤ d.length) :
+    ∃ c, d[ptr]? = some c ∧ seg d ptr endp = c :: seg d (ptr + 1) endp := by
+  have hlt : ptr < d.length := by omega
+  refine ⟨d[ptr], List.getElem?_eq_getElem hlt, ?_⟩
+  apply List.ext_getElem?
+  intro p
+  simp only [seg, List.getElem?_drop, List.getElem?_take, List.getElem?_cons]
+  cases p with
+  | zero => simp [h1, List.getElem?_eq_getElem hlt]
+  | succ p => simp; try rw [show ptr + (p + 1) = ptr + 1 + p by omega]
+
+theorem seg_length (d : List Byte) {ptr endp : Nat} (h2 : endp ≤ d.length) : (seg d ptr endp).length = endp - ptr := by
+  simp [seg]; omega
+
+theorem seg_drop (d : List Byte) (ptr endp k : Nat) : seg d (ptr + k) endp = (seg d ptr endp).drop k := by
+  simp [seg, List.drop_drop, Nat.add_comm]
+
+theorem skipLoop_spec (d : List Byte) (delim : Byte) (b : Bool) (endp : Nat) (he : endp ≤ d.length) :
+    ∀ (fuel ptr : Nat), ptr ≤ endp → endp - ptr ≤ fuel →
+    skipLoop d delim b fuel ptr endp = .ok (ptr + ((seg d ptr endp).takeWhile (isDelim delim b)).length) := by
+  intro fuel
+  induction fuel with
+  | zero =>
+    intro ptr h1 h2
+    have : ptr = endp := by omega
+    subst this
+    simp [skipLoop, seg_self d ptr he]
+  | succ fuel ih =>
+    intro ptr h1 h2
+    by_cases hpe : ptr = endp
+    · subst hpe
+      simp [skipLoop, seg_self d ptr he]
+    · obtain ⟨c, hc, hseg⟩ := seg_cons (d := d) (show ptr < endp by omega) he
+      rw [hseg]
+      by_cases hq : decide (c = delim) = b
+      · have := ih (ptr + 1) (by omega) (by omega)
+        simp only [skipLoop, hpe, if_false, rd, hc, bind, Except.bind, hq, if_true, this, List.takeWhile_cons]
+        have : isDelim delim b c = true := by simp [isDelim, hq]
+        rw [this]; simp; omega
+      · simp only [skipLoop, hpe, if_false, rd, hc, bind, Except.bind, hq, pure, Except.pure, List.takeWhile_cons]
+        have : isDelim delim b c = false := by simp [isDelim, hq]
+        rw [this]; simp
+
+theorem tw_len_le (p : Byte → Bool) (l : List Byte) : (l.takeWhile p).length ≤ l.length := by
+  induction l with
+  | nil => simp
+  | cons b rest ih =>
+    cases hb : p b <;> simp [List.takeWhile_cons, hb]; omega
+
+theorem dw_eq_drop (p : Byte → Bool) : ∀ (l : List Byte), l.dropWhile p = l.drop (l.takeWhile p).length := by
+  intro l
+  induction l with
+  | nil => rfl
+  | cons b rest ih =>
+    cases hb : p b <;> simp [List.takeWhile_cons, List.dropWhile_cons, hb]
+    exact ih
+
+/-- the token stream of `split`, as the pointer walk produces it: skip
+    delimiters, take the maximal delimiter-free run, repeat -/
+def tokSpec (delim : Byte) : (fuel : Nat) → List Byte → List (List Byte)
+  | 0, _ => []
+  | f + 1, rem =>
+      let r1 := rem.dropWhile (isDelim delim true)
+      if r1.isEmpty then []
+      else r1.takeWhile (isDelim delim false) :: tokSpec delim f (r1.dropWhile (isDelim delim false))
+
+theorem drop_take_seg (d : List Byte) {strt endp k : Nat} (hk : strt + k ≤ endp) :
+    (d.drop strt).take k = (seg d strt endp).take k := by
+  apply List.ext_getElem?
+  intro p
+  simp only [seg, List.getElem?_take, List.getElem?_drop]
+  grind
+
+theorem splitLoop_spec (d : List Byte) (delim : Byte) (VS SS : Nat) (junk : List Byte) (hj : junk.length = SS + 1)
+    (endp : Nat) (he : endp ≤ d.length) :
+    ∀ (fuel ptr : Nat) (acc : List SStr), ptr ≤ endp → acc.length ≤ VS →
+      (∀ t, t ∈ acc → SAbs SS t t.contents) →
+    ∃ toks, splitLoop d delim VS SS junk fuel ptr endp acc = .ok toks ∧
+      (∀ t, t ∈ toks → SAbs SS t t.contents) ∧ toks.length ≤ VS ∧
+      toks.map SStr.contents =
+        (acc.map SStr.contents ++ (tokSpec delim fuel (seg d ptr endp)).map (List.take SS)).take VS := by
+  intro fuel
+  induction fuel with
+  | zero =>
+    intro ptr acc _ hacc hall
+    refine ⟨acc, rfl, hall, hacc, ?_⟩
+    simp [tokSpec]; rw [List.take_of_length_le (by simp; exact hacc)]
+  | succ fuel ih =>
+    intro ptr acc hp hacc hall
+    have hs1 := skipLoop_spec d delim true endp he (endp - ptr) ptr hp (Nat.le_refl _)
+    generalize hk1 : ((seg d ptr endp).takeWhile (isDelim delim true)).length = k1 at hs1
+    have hk1le : k1 ≤ endp - ptr := by
+      rw [← hk1, ← seg_length d (ptr := ptr) he]; exact tw_len_le _ _
+    have hr1 : (seg d ptr endp).dropWhile (isDelim delim true) = seg d (ptr + k1) endp := by
+      rw [dw_eq_drop, hk1, seg_drop]
+    by_cases hend : ptr + k1 = endp
+    · -- nothing but delimiters left
+      have : seg d (ptr + k1) endp = [] := by rw [hend]; exact seg_self d endp he
+      refine ⟨acc, by simp [splitLoop, hs1, hend, bind, Except.bind, pure, Except.pure], hall, hacc, ?_⟩
+      simp [tokSpec, hr1, this]; rw [List.take_of_length_le (by simp; exact hacc)]
+    · have hs2 := skipLoop_spec d delim false endp he (endp - (ptr + k1)) (ptr + k1) (by omega) (Nat.le_refl _)
+      generalize hk2 : ((seg d (ptr + k1) endp).takeWhile (isDelim delim false)).length = k2 at hs2
+      have hk2le : k2 ≤ endp - (ptr + k1) := by
+        rw [← hk2, ← seg_length d (ptr := ptr + k1) he]; exact tw_len_le _ _
+      have hne : (seg d (ptr + k1) endp).isEmpty = false := by
+        have := seg_length d (ptr := ptr + k1) he
+        cases hq : seg d (ptr + k1) endp with
+        | nil => rw [hq] at this; simp at this; omega
+        | cons _ _ => rfl
+      have htok : (seg d (ptr + k1) endp).takeWhile (isDelim delim false) = (d.drop (ptr + k1)).take k2 := by
+        rw [tw_eq_take, hk2, drop_take_seg d (endp := endp) (by omega)]
+      have hrest : (seg d (ptr + k1) endp).dropWhile (isDelim delim false) = seg d (ptr + k1 + k2) endp := by
+        rw [dw_eq_drop, hk2]; exact (seg_drop d (ptr + k1) endp k2).symm
+      obtain ⟨t, ht1, ht2⟩ := sCtorPtrLen_spec (N := SS) (junk := junk) (arg := d.drop (ptr + k1)) (sz := k2) hj
+        (by simp; omega)
+      -- the new accumulator
+      by_cases hfull : acc.length ≥ VS
+      · obtain ⟨toks, g1, g2, g3, g4⟩ := ih (ptr + k1 + k2) acc (by omega) hacc hall
+        refine ⟨toks, ?_, g2, g3, ?_⟩
+        · simp [splitLoop, hs1, hend, hs2, hfull, bind, Except.bind, pure, Except.pure,
+            show ptr + k1 + k2 - (ptr + k1) = k2 by omega, g1]
+        · rw [g4]
+          simp only [tokSpec, hr1, hne, hrest]
+          have hl : (acc.map SStr.contents).length = VS := by simp; omega
+          simp only [Bool.false_eq_true, if_false, List.map_cons]
+          rw [List.take_append_of_le_length (by omega), List.take_append_of_le_length (by omega)]
+      · have hall' : ∀ x, x ∈ acc ++ [t] → SAbs SS x x.contents := by
+          intro x hx
+          rcases List.mem_append.mp hx with h | h
+          · exact hall x h
+          · have : x = t := by simpa using h
+            subst this
+            have := ht2.contents
+            rw [this]; exact ht2
+        obtain ⟨toks, g1, g2, g3, g4⟩ := ih (ptr + k1 + k2) (acc ++ [t]) (by omega) (by simp; omega) hall'
+        refine ⟨toks, ?_, g2, g3, ?_⟩
+        · simp [splitLoop, hs1, hend, hs2, hfull, bind, Except.bind, pure, Except.pure,
+            show ptr + k1 + k2 - (ptr + k1) = k2 by omega, ht1, g1]
+        · rw [g4]
+          simp only [tokSpec, hr1, hne, hrest, Bool.false_eq_true, if_false, List.map_cons, List.map_append,
+            List.map_singleton, ht2.contents, htok, List.append_assoc, List.singleton_append]
+          simp
+
+/-- reference tokenizer, one character at a time: a delimiter ends the current
+    token (empty tokens are not reported), the end of the string ends the last -/
+def tokAux (delim : Byte) : List Byte → List Byte → List (List Byte)
+  | [], cur => if cur.isEmpty then [] else [cur]
+  | b :: rest, cur =>
+      if b = delim then (if cur.isEmpty then tokAux delim rest [] else cur :: tokAux delim rest [])
+      else tokAux delim rest (cur ++ [b])
+
+def tokens (delim : Byte) (es : List Byte) : List (List Byte) := tokAux delim es []
+
+theorem isDelim_true_iff (delim c : Byte) : isDelim delim true c = true ↔ c = delim := by simp [isDelim]
+theorem isDelim_false_iff (delim c : Byte) : isDelim delim false c = true ↔ c ≠ delim := by simp [isDelim]
+
+theorem tokAux_cur (delim : Byte) : ∀ (rem cur : List Byte), cur ≠ [] →
+    tokAux delim rem cur = (cur ++ rem.takeWhile (isDelim delim false)) :: tokAux delim (rem.dropWhile (isDelim delim false)) [] := by
+  intro rem
+  induction rem with
+  | nil => intro cur h; cases cur <;> simp_all [tokAux]
+  | cons b rest ih =>
+    intro cur h
+    by_cases hb : b = delim
+    · have h1 : isDelim delim false b = false := by
+        cases hq : isDelim delim false b
+        · rfl
+        · exact absurd hb ((isDelim_false_iff delim b).mp hq)
+      have hc : cur.isEmpty = false := by cases cur <;> simp_all
+      subst hb
+      simp only [tokAux, if_true, hc, List.takeWhile_cons, List.dropWhile_cons, h1]
+      simp [tokAux]
+    · have h1 : isDelim delim false b = true := (isDelim_false_iff delim b).mpr hb
+      simp only [tokAux, hb, if_false, List.takeWhile_cons, List.dropWhile_cons, h1, if_true]
+      rw [ih (cur ++ [b]) (by simp)]
+      simp
+
+theorem tokAux_skip (delim : Byte) : ∀ (rem : List Byte),
+    tokAux delim rem [] = tokAux delim (rem.dropWhile (isDelim delim true)) [] := by
+  intro rem
+  induction rem with
+  | nil => rfl
+  | cons b rest ih =>
+    by_cases hb : b = delim
+    · have h1 : isDelim delim true b = true := (isDelim_true_iff delim b).mpr hb
+      simp only [List.dropWhile_cons, h1, if_true]
+      rw [← ih]; simp [tokAux, hb]
+    · have h1 : isDelim delim true b = false := by
+        cases hq : isDelim delim true b
+        · rfl
+        · exact absurd ((isDelim_true_iff delim b).mp hq) hb
+      simp only [List.dropWhile_cons, h1]; rfl
+
+theorem dw_len_le (p : Byte → Bool) (l : List Byte) : (l.dropWhile p).length ≤ l.length := by
+  induction l with
+  | nil => simp
+  | cons b rest ih =>
+    cases hb : p b <;> simp [List.dropWhile_cons, hb]; omega
+
+theorem dw_head (p : Byte → Bool) : ∀ (l : List Byte) (b : Byte) (rest : List Byte), l.dropWhile p = b :: rest → p b = false := by
+  intro l
+  induction l with
+  | nil => intro b rest h; cases h
+  | cons a l ih =>
+    intro b rest h
+    cases ha : p a with
+    | true => simp [List.dropWhile_cons, ha] at h; exact ih b rest h
+    | false => simp [List.dropWhile_cons, ha] at h; rw [← h.1]; exact ha
+
+theorem tokSpec_eq_tokens (delim : Byte) : ∀ (fuel : Nat) (rem : List Byte), rem.length < fuel →
+    tokSpec delim fuel rem = tokAux delim rem [] := by
+  intro fuel
+  induction fuel with
+  | zero => intro rem h; cases h
+  | succ fuel ih =>
+    intro rem h
+    rw [tokAux_skip]
+    have hl := dw_len_le (isDelim delim true) rem
+    cases hr : rem.dropWhile (isDelim delim true) with
+    | nil => simp [tokSpec, hr, tokAux]
+    | cons b rest =>
+      have hb0 := dw_head _ _ _ _ hr
+      have hb : b ≠ delim := by
+        intro e
+        have := (isDelim_true_iff delim b).mpr e
+        rw [hb0] at this; cases this
+      have h1 : isDelim delim false b = true := (isDelim_false_iff delim b).mpr hb
+      rw [hr] at hl
+      have hl2 := dw_len_le (isDelim delim false) rest
+      simp only [tokSpec, hr, List.isEmpty_cons, Bool.false_eq_true, if_false, List.takeWhile_cons,
+        List.dropWhile_cons, h1, if_true]
+      rw [ih _ (by simp at hl; omega)]
+      simp only [tokAux, hb, if_false, List.nil_append]
+      rw [tokAux_cur delim rest [b] (by simp)]
+      simp
+
+/-- `split<VSize,SSize>(delim)` on a string that holds `es` -/
+theorem sSplit_spec {N : Nat} {s : SStr} {es : List Byte} (h : SAbs N s es) (delim : Byte) (VS SS : Nat)
+    {junk : List Byte} (hj : junk.length = SS + 1) :
+    ∃ toks, sSplit s delim VS SS junk = .ok toks ∧ (∀ t, t ∈ toks → SAbs SS t t.contents) ∧ toks.length ≤ VS ∧
+      toks.map SStr.contents = ((tokens delim es).map (List.take SS)).take VS := by
+  have hlen := h.len; have hs := h.size; have hl := h.le
+  obtain ⟨toks, h1, h2, h3, h4⟩ := splitLoop_spec s.data delim VS SS junk hj s.size (by omega) (s.size + 1) 0 []
+    (Nat.zero_le _) (Nat.zero_le _) (by intro t ht; cases ht)
+  refine ⟨toks, h1, h2, h3, ?_⟩
+  have e : seg s.data 0 s.size = es := by simp [seg]; exact h.eq
+  rw [h4, e, tokSpec_eq_tokens delim _ _ (by omega)]
+  simp [tokens]
+
 /-! ### the string machine against K reference strings -/
 
 abbrev SpecS := Nat → Option (List Byte)
